@@ -38,6 +38,7 @@ type Scenario struct {
 	TPB     time.Duration
 	TPB2    time.Duration // time per block returned by the callback from height TPB2From on (0: constant)
 	TPB2From uint32
+	HonourStop bool // sync family: the application forgets its open transaction requests when StopTxFlow is called
 	TPBAlt   bool // from TPB2From on the block time alternates between TPB2 and TPB with every height
 	MaxTPB  time.Duration // 0: dynamic block time off
 	TSInc   uint64
@@ -663,6 +664,8 @@ func SyncScenario(t *Tape) *Scenario {
 		}
 	}
 	sc.MaxEvents = 60000
+	// (drawn last so that the meaning of the earlier scenario draws is unchanged)
+	sc.HonourStop = t.Chance(SScen, 1, 2)
 	return sc
 }
 
